@@ -45,6 +45,7 @@
 package interp // import "golang.org/x/tools/go/ssa/interp"
 
 import (
+	"time"
 	"fmt"
 	"go/token"
 	"go/types"
@@ -256,11 +257,19 @@ func lookupMethod(i *interpreter, typ types.Type, meth *types.Func) *ssa.Functio
 // visitInstr interprets a single ssa.Instruction within the activation
 // record frame.  It returns a continuation value indicating where to
 // read the next instruction from.
+// pathWallLimit bounds the wall-clock time of one path.
+const pathWallLimit = 10 * time.Minute
+
 func visitInstr(fr *frame, instr ssa.Instruction) continuation {
 	p := P
 	p.instrs++
 	if p.instrs > p.budget {
 		panic(pathEnd{"budget", fmt.Sprintf("instruction budget %d exhausted at %s", p.budget, p.site())})
+	}
+	if p.instrs&0xffff == 0 && time.Since(p.started) > pathWallLimit {
+		// a path that makes progress only through solver calls would take hours to
+		// use up the instruction budget: it ends like one that exceeded it
+		panic(pathEnd{"budget", fmt.Sprintf("path wall-clock limit %s exceeded after %d instructions at %s", pathWallLimit, p.instrs, p.site())})
 	}
 	p.curInstr, p.curFn = instr, fr.fn
 	if fr.mkdb {
